@@ -1114,6 +1114,62 @@ class Exec:
                 return mk("agg", ("adt", "core::option::Option", 1, "Some"), (mk("agg", ("tuple",), (mk("ref", l1, ()), mk("ref", l2, ()))),))
             return None
         a0 = self.deref_value(st, args[0]) if args else None
+        if base.startswith("core::iter::Iterator::zip") and len(args) == 2 and tag(a0) == "sliceiter":
+            b0 = self.deref_value(st, args[1])
+            if tag(b0) == "sliceiter":
+                return mk("zipiter", a0, b0)
+            sl = self.slice_view(st, args[1])
+            if sl is not None:
+                self.iterated.append(sl)
+                return mk("zipiter", a0, mk("sliceiter", sl[0], sl[1], sl[2], 0))
+            return None
+        if tag(a0) == "zipiter":
+            za, zb = a0[1], a0[2]
+            na, nb = za[3] - za[2], zb[3] - zb[2]
+            def front(it):
+                carr, lo, hi, rev = it[1], it[2], it[3], it[4]
+                idx = hi - 1 if rev else lo
+                rest = mk("sliceiter", carr, lo, hi - 1, rev) if rev else mk("sliceiter", carr, lo + 1, hi, rev)
+                return self.index(carr, mk_const("usize", idx)), rest
+            if base.startswith("core::iter::Iterator::rev") and len(args) == 1:
+                if na != nb:
+                    return None      # reversal of a zip of unequal lengths trims the longer one first: not modelled
+                return mk("zipiter", mk("sliceiter", za[1], za[2], za[3], 1 - za[4]), mk("sliceiter", zb[1], zb[2], zb[3], 1 - zb[4]))
+            if base.endswith("IntoIterator>::into_iter") or base.startswith("core::iter::IntoIterator::into_iter") or "IntoIterator for I>::into_iter" in base:
+                return a0
+            if base.endswith("Iterator>::next") or base.startswith("core::iter::Iterator::next"):
+                ra = raw_args[0]
+                if tag(ra) != "ref":
+                    return None
+                if na <= 0 or nb <= 0:
+                    return mk("agg", ("adt", "core::option::Option", 0, "None"), ())
+                ea, ra2 = front(za); eb, rb2 = front(zb)
+                self.store_to(st, ra[1], tuple(ra[2]), mk("zipiter", ra2, rb2))
+                l1 = st.alloc(); st.store[l1] = ea
+                l2 = st.alloc(); st.store[l2] = eb
+                return mk("agg", ("adt", "core::option::Option", 1, "Some"), (mk("agg", ("tuple",), (mk("ref", l1, ()), mk("ref", l2, ()))),))
+            is_rf = base.endswith("Iterator>::rfold") or base.startswith("core::iter::DoubleEndedIterator::rfold")
+            if (base.endswith("Iterator>::fold") or base.startswith("core::iter::Iterator::fold") or is_rf) and len(args) == 3:
+                if is_rf:
+                    if na != nb:
+                        return None
+                    za = mk("sliceiter", za[1], za[2], za[3], 1 - za[4]); zb = mk("sliceiter", zb[1], zb[2], zb[3], 1 - zb[4])
+                clo = self.deref_value(st, args[2])
+                if tag(clo) != "agg" or clo[1][0] != "closure":
+                    return None
+                cb = self.facts.by_key.get(clo[1][1])
+                if cb is None:
+                    return None
+                sub = Exec(self.facts, self.policy, max_nodes=2000)
+                leaf = sub.run_body(cb)
+                if leaf[0] != "leaf" or leaf[2]:
+                    return None
+                acc = self.deref_value(st, args[1])
+                for _ in range(min(za[3] - za[2], zb[3] - zb[2])):
+                    ea, za = front(za); eb, zb = front(zb)
+                    acc = _subst_closure(leaf[1], clo, acc, mk("agg", ("tuple",), (ea, eb)))
+                return acc
+            return None
         cr = const_range(a0)
         if cr is not None:
             # `lo..hi` with constant integer bounds: a loop with a concrete trip count
